@@ -269,7 +269,67 @@ func nCancel(parent bool) func() {
 	}
 }
 
+// N-cancel-dup: a refused operation must not change the registry. A second SubscribeCancel /
+// SubscribeContext / Subscribe for a (key, target) pair that is already subscribed panics (as
+// documented); the first subscription must still receive a later publish, at whatever point any
+// clean-up of the refused call runs, and its own cancel must still withdraw it.
+func nCancelDup(kind int) func() {
+	return func() {
+		var n Notifier
+		c := make(chan int, 4)
+		cancel := n.SubscribeCancel(context.Background(), "k", c)
+		func() {
+			defer func() {
+				if r := recover(); r != nil {
+					vrt.Log("dup-panic")
+				}
+			}()
+			switch kind {
+			case 0:
+				n.SubscribeCancel(context.Background(), "k", c)
+			case 1:
+				ctx, cancel2 := context.WithCancel(context.Background())
+				defer cancel2()
+				n.SubscribeContext(ctx, "k", c)
+			default:
+				n.Subscribe("k", c)
+			}
+			vrt.Log("dup-returned")
+		}()
+		var wg sync.WaitGroup
+		wg.Add(1)
+		go func() {
+			defer wg.Done()
+			vrt.Log("pubcall")
+			n.Publish("k", 1)
+			vrt.Log("pubret", len(c))
+		}()
+		wg.Wait()
+		for len(c) > 0 {
+			vrt.Log("recv", <-c)
+		}
+		cancel()
+		// the unsubscription is asynchronous: wait until a probe is no longer delivered
+		for i := 0; ; i++ {
+			for len(c) > 0 {
+				<-c
+			}
+			n.Publish("k", 100+i)
+			if len(c) == 0 {
+				break
+			}
+			vrt.Yield()
+		}
+		vrt.Log("quiet")
+	}
+}
+
 func init() {
+	for kind, name := range []string{"N-cancel-dup", "N-cancel-dup-ctx", "N-cancel-dup-plain"} {
+		vrt.Register(&vrt.Scenario{Name: name, Props: []string{"C15", "C11:race", "C12:goroutine-leak"}, Quick: 2, Thorough: 3,
+			Desc: "a duplicate SubscribeCancel / SubscribeContext / Subscribe of a subscribed (key, target) pair is refused by a panic; the first subscription still receives a later publish and is withdrawn by its own cancel",
+			Run:  nCancelDup(kind), Check: notifierDupCheck})
+	}
 	vals := func() (any, string) {
 		switch vrt.Choose(3, 0) {
 		case 0:
